@@ -5,6 +5,7 @@ From Saml Require Import Base.Bytes Idp.FactTypes Gen.Facts Idp.Sso Idp.Callback
 From Saml Require Import Idp.BuilderTypes Idp.Builder Xml.Unmarshal Idp.AuthnOf Idp.RequestsOf.
 From Saml Require Import Idp.BuilderTypes Idp.Builder Gen.Builders Idp.BuiltDoc Idp.GetSamlAll Idp.SuccessAny Idp.QueryFilter Idp.AttrRefine.
 From Saml Require Import Xml.SchemaTypes Xml.Schema Gen.Schema Xml.SamlSpec.
+From Saml Require Gen.Nec Core.Necessary.
 
 Definition cur_atags : list atag := Eval vm_compute in map atag_of attrquery_steps.
 Lemma attrquery_fail_closed_facts : forallb (fun f => match sf f with FHttp c => (400 <=? c)%Z | _ => false end) attrquery_steps = true.
@@ -102,6 +103,16 @@ Theorem C12_answer_message_refines_model : forall reqid issuer sp u (qs : list d
                  map attr_of_dval l = am_attrs M).
 Proof. exact attrquery_message_refines. Qed.
 
+(** the guards on the signature, from source: signaturePostProvided, certificateCheckNecessary and checkCertificate (post.go / sso.go),
+    translated by go2v (Gen/Nec.v), are the model's sig_provided, cert_necessary and cert_matches -- the conditions of C12_answered --
+    for every signature and provider record (the certificate texts compared after the source's white-space normalisation, an oracle) *)
+Theorem C12_signature_guards_from_source : forall norm (sg : option sig_info) (s : sp_rec),
+  Nec.signaturePostProvided (option_map Necessary.view_sig sg) = sig_provided sg /\
+  Nec.certificateCheckNecessary (option_map Necessary.view_sig sg) (Some (Necessary.view_sp s)) = cert_necessary sg s /\
+  goerr_is_nil (Nec.checkCertificate norm (option_map Necessary.view_sig sg) (Some (Necessary.view_sp s)))
+    = cert_matches (option_map (Necessary.norm_sig norm) sg) (Necessary.norm_sp norm s).
+Proof. exact Necessary.attrquery_necessity_bridge. Qed.
+
 (** the attribute filter: an attribute is disclosed iff it is one of the user's attributes and (nothing was requested or
     its name and name format match a requested attribute) *)
 Theorem C12_filter : forall requested l a, In a (filter_attrs requested l) <->
@@ -158,3 +169,4 @@ Print Assumptions C12_answered_destination.
 Print Assumptions C12_filter_from_source.
 Print Assumptions C12_answer_refines_model.
 Print Assumptions C12_answer_message_refines_model.
+Print Assumptions C12_signature_guards_from_source.
